@@ -221,7 +221,7 @@ func (rc *RunCtx) Sim(opts SimOpts, root func()) SimResult {
 			if r := recover(); r != nil {
 				// the bubble ends with blocked goroutines after a simulated exit or a
 				// deadlock: expected, the outcome is already in res
-				if !(res.Exited || res.Deadlock || res.StepCap) {
+				if !(res.Exited || res.Deadlock || res.StepCap) && !strings.Contains(fmt.Sprint(r), "blocked goroutines remain") {
 					res.Panic = fmt.Sprintf("harness panic: %v", r)
 					res.Exited = true
 					res.ExitCode = 2
